@@ -19,7 +19,7 @@ def dotted_name(n):
 
 import math
 NP_SCALAR = {'np.sum': lambda x: sum(x), 'sum': lambda x: sum(x), 'np.any': lambda x: any(x), 'any': lambda x: any(x), 'all': lambda x: all(x), 'np.floor': math.floor, 'np.ceil': math.ceil, 'np.log10': math.log10, 'np.minimum': min, 'np.maximum': max, 'np.abs': abs, 'np.sqrt': math.sqrt,
-             'np.round': round, 'float': float, 'abs': abs, 'min': min, 'max': max, 'round': round}
+             'np.round': round, 'float': float, 'abs': abs, 'min': min, 'max': max, 'round': round, 'divmod': divmod}
 
 
 def ev(e, env, hook=None):
